@@ -113,6 +113,9 @@ func callGFunction(L *LState, tailcall bool) bool {
 	}
 
 	if gfnret < 0 {
+		// remember how many results the pending yield expression expects, so
+		// that the values given to the next resume can be adjusted to it
+		L.yieldNRet = frame.NRet
 		switchToParentThread(L, L.GetTop(), false, false)
 		return true
 	}
